@@ -673,6 +673,9 @@ suite!(RIdP256, "real-identity:p256/p256", P256, P256, opaque_ke::ksf::Identity,
 suite!(RArR255, "real-argon2:ristretto255/ristretto255", R255, R255, argon2::Argon2<'static>, O::Ristretto255, K::Ristretto255, F::RealArgon2);
 suite!(RArP256, "real-argon2:p256/p256", P256, P256, argon2::Argon2<'static>, O::P256, K::P256, F::RealArgon2);
 
+suite!(ZstR255, "zst-ksf:ristretto255/ristretto255", R255, R255, crate::ksf::ZstKsf, O::Ristretto255, K::Ristretto255, F::Zst);
+suite!(ZstP256, "zst-ksf:p256/p256", P256, P256, crate::ksf::ZstKsf, O::P256, K::P256, F::Zst);
+
 /// the 20 (OPRF, KE) combinations, all with `DynKsf`
 pub fn suites20() -> Vec<&'static dyn Proto> {
     vec![
@@ -685,7 +688,7 @@ pub fn suites20() -> Vec<&'static dyn Proto> {
 
 /// the four suites using `ksf::Identity` / `argon2::Argon2` directly
 pub fn real_ksf_suites() -> Vec<&'static dyn Proto> {
-    vec![&RIdR255, &RIdP256, &RArR255, &RArP256]
+    vec![&RIdR255, &RIdP256, &RArR255, &RArP256, &ZstR255, &ZstP256]
 }
 
 pub fn all_suites() -> Vec<&'static dyn Proto> {
